@@ -10,7 +10,8 @@ Record obs10 := mkobs10 {
   b_ops : list opid; b_meta : list (list (N * N)) (* per operation, sorted by key: AllMetadata *);
   b_meta_get : list (list (N * N)) (* the same through the per-key accessor GetMetadata (and GetCreateMetadata) *);
   b_same : bool (* compiling twice gives the same snapshot *);
-  b_incr : bool (* applying operation by operation, as the cache does, gives the same snapshot *) }.
+  b_incr : bool (* applying operation by operation, as the cache does, gives the same snapshot; and the snapshot's
+                     accessor functions (HasActor, HasParticipant, Search*, Edited, ...) answer what its lists say *) }.
 (* k_own: the metadata each operation carries itself (part of its content, hence of its id); the model and the
    specification speak of the metadata attached later, which never overrides it *)
 Record case := mkcase10 { k_ops : list op; k_own : list (list (N * N)); k_obs : obs10 }.
